@@ -32,13 +32,15 @@ VIEW View
 
 // C01: rule matching is exact.
 func C01(run *vf.Run) {
-	run.Rule = "TLC enumerates three families over Engine.tla: select (every target shape: collection x all/string/regex key x count x exclusion, over every request of <=N entries with duplicate, mixed-case keys in several collections), operate (transformation lists x operators x negation x multiMatch over requests with varying values), chain (2-3 link chains over ARGS_POST / MATCHED_VAR / MATCHED_VARS / counts); every runtime iteration order is explored; each scenario is replayed on the real library and MatchedRules()/MatchedDatas() compared with the outcomes the specification allows; non-trivial = the rule fires in the specification"
+	run.Rule = "TLC enumerates families over Engine.tla: select2 (two targets over one collection followed by an exclusion written once after both), select (every target shape: collection x all/string/regex key x count x exclusion, over every request of <=N entries with duplicate, mixed-case keys in several collections), operate (transformation lists x operators x negation x multiMatch over requests with varying values), chain (2-3 link chains over ARGS_POST / MATCHED_VAR / MATCHED_VARS / counts); every runtime iteration order is explored; each scenario is replayed on the real library and MatchedRules()/MatchedDatas() compared with the outcomes the specification allows; non-trivial = the rule fires in the specification"
 	run.Exhaustive = true
 	run.Assume("TLC 1.8.0 explores the bounded Engine_MC instances completely")
 	run.Assume("regex-key case reading is left open (Choice_RxKey): the key as sent, case-insensitive, or the folded key are all accepted")
 	to := vf.Pick(run, 10*time.Minute, 90*time.Minute)
 	eng.ReplayFamily(run, eng.FamilyOpts{Name: "select", CfgText: engineCfg("select", vf.Pick(run, 2, 3), 0, vf.Pick(run, "{2}", "{1, 2}"), `{"On"}`),
 		Proj: eng.ProjOpts{FoldMDKeys: true}, Timeout: to, Workers: 3, Slices: 6})
+	eng.ReplayFamily(run, eng.FamilyOpts{Name: "select2", CfgText: engineCfg("select2", 2, 0, "{2}", `{"On"}`),
+		Proj: eng.ProjOpts{FoldMDKeys: true}, Timeout: to, Workers: 3, Slices: 3})
 	eng.ReplayFamily(run, eng.FamilyOpts{Name: "operate", CfgText: engineCfg("operate", vf.Pick(run, 2, 3), 0, "{2}", `{"On"}`),
 		Proj: eng.ProjOpts{}, Timeout: to, Workers: 3, Slices: 6})
 	// the pair family is replayed serially in one process, where the process-wide pattern cache is shared
